@@ -1025,7 +1025,10 @@ class Mask2D(Mask):
         return Mask2D.all_false(
             shape_native=self.zoom_shape_native,
             pixel_scales=self.pixel_scales,
-            origin=self.zoom_offset_scaled,
+            origin=(
+                self.origin[0] + self.zoom_offset_scaled[0],
+                self.origin[1] + self.zoom_offset_scaled[1],
+            ),
         )
 
     @property
